@@ -608,7 +608,13 @@ class QuorumSensing:
         abstain_votes: list[Vote]
     ) -> QuorumResult:
         """Fixed threshold count (e.g., need exactly N permits)."""
-        threshold = int(self.custom_threshold or len(self.colony) // 2 + 1)
+        if not self.custom_threshold:
+            threshold = len(self.colony) // 2 + 1
+        elif 0 < self.custom_threshold < 1:
+            # Fractional thresholds are a share of the colony, never less than one permit
+            threshold = max(1, math.ceil(self.custom_threshold * len(self.colony)))
+        else:
+            threshold = max(1, int(self.custom_threshold))
 
         reached = len(permit_votes) >= threshold
         decision = VoteType.PERMIT if reached else VoteType.BLOCK
